@@ -61,7 +61,6 @@ inductive E
   | badBase32
   | badLength (expected found : Nat)
   | badForm (what : String)
-  | notCallable
   | autofill (why : String)
   | sort (e : Codec.Err)
   | schema (why : String)
@@ -102,10 +101,6 @@ structure Config where
   idAutofill : Bool
   /-- nem `create`: transfer message hack -/
   messageHack : Bool
-  /-- class constants of the generated classes (`TRANSACTION_VERSION`, …): type ↦ names -/
-  classConsts : List (String × List String)
-  /-- `dir(object())` plus `__dict__`, `__module__`, `__weakref__` -/
-  objectAttrs : List String
 
 /-! ### markers for ill-typed member contents -/
 
@@ -147,44 +142,32 @@ def reservedNames (d : StructDef) : List String :=
 def computedNames (d : StructDef) : List String :=
   d.fields.filterMap fun f => match f.kind with | .sizeRef .. => some (f.name ++ "_computed") | _ => none
 
-def constsOf (cfg : Config) (ty : String) : List String := ((cfg.classConsts.find? (·.1 == ty)).map (·.2)).getD []
+/-- `str.startswith('_')` -/
+def startsWithUnderscore (s : String) : Bool := s.toList.head? == some '_'
 
-/-- names for which `hasattr(instance, name)` holds and that are neither a member property, a member's
-    private attribute, nor `size` -/
-def otherAttrs (cfg : Config) (ty : String) (d : StructDef) : List String :=
-  (reservedNames d).map ("_" ++ ·) ++ computedNames d
-  ++ ["sort", "serialize", "to_json", "TYPE_HINTS"] ++ (if d.abstract then [] else ["deserialize"])
-  ++ (if d.base.isSome || d.abstract then ["_serialize", "_deserialize"] else [])
-  ++ (if d.comparer.isEmpty then [] else ["comparer"])
-  ++ constsOf cfg ty ++ (if (constsOf cfg ty).isEmpty then [] else ["__annotations__"])
-  ++ cfg.objectAttrs
-
-/-- all names for which `hasattr(instance, name)` holds (`dir(instance)`) -/
-def attrNames (cfg : Config) (ty : String) (d : StructDef) : List String :=
-  (carrying d).map (fun f => fixName f.name) ++ (carrying d).map (fun f => "_" ++ fixName f.name)
-  ++ ["size"] ++ otherAttrs cfg ty d
+/-- the properties of a generated class: one per value-carrying member (under its printer name), `size`, and a
+    `…_computed` getter per `@sizeref` member -/
+def propertyNames (d : StructDef) : List String :=
+  (carrying d).map (fun f => fixName f.name) ++ ["size"] ++ computedNames d
 
 inductive KeyClass
-  /-- a member (through its property: type hint applies; through its private attribute: it does not) -/
-  | member (f : Field) (hinted : Bool)
-  /-- a property without setter -/
+  /-- a public data member: a property with a setter -/
+  | member (f : Field)
+  /-- a property without setter (`size`, `…_computed`): `setattr` raises AttributeError -/
   | readOnly
-  /-- some other attribute: `setattr` puts an instance attribute in front of it; member state is untouched -/
-  | shadow
-  /-- `hasattr` is false -/
+  /-- not a public data member: `copy_to` raises ValueError -/
   | unknown
   deriving Repr, Inhabited
 
-def classify (cfg : Config) (ty : String) (d : StructDef) (key : String) : KeyClass :=
+/-- `copy_to`'s test of a descriptor key against an instance of a generated class:
+    `key.startswith('_') or not (hasattr(transaction, key) and (class attribute is None or a property))`.
+    Every instance attribute of a generated class is private, so what passes is exactly a property of the class;
+    private attributes, methods, class constants (`TYPE_HINTS`, `TRANSACTION_VERSION`, …) and dunder names do not. -/
+def classify (d : StructDef) (key : String) : KeyClass :=
+  if startsWithUnderscore key then .unknown else
   match (carrying d).find? (fun f => fixName f.name == key) with
-  | some f => .member f true
-  | none =>
-    match (carrying d).find? (fun f => "_" ++ fixName f.name == key) with
-    | some f => .member f false
-    | none =>
-      if key == "size" then .readOnly
-      else if (otherAttrs cfg ty d).contains key then .shadow
-      else .unknown
+  | some f => .member f
+  | none => if key == "size" || (computedNames d).contains key then .readOnly else .unknown
 
 /-! ### constructor defaults -/
 
@@ -432,8 +415,6 @@ def coerceAtom (cfg : Config) (top hinted : Bool) (slot : Slot) (dv : DVal) : Ex
 
 structure St where
   vs : List (String × Val)
-  /-- the descriptor put an instance attribute in front of the method `sort` -/
-  sortShadowed : Bool := false
 
 /-- `setattr(transaction, key, value)`, or `getattr(transaction, key).extend(value)` for a list -/
 def storeMember (st : St) (f : Field) (key : String) (cv : Val) : Except E St :=
@@ -496,15 +477,11 @@ def copyEntries (cfg : Config) (ty : String) (d : StructDef) (top : Bool) : List
     if top && key == "type" then copyEntries cfg ty d top rest st
     else if endsWith key "_computed" then .error (.computedKey key)
     else
-      match classify cfg ty d key with
+      match classify d key with
       | .unknown => .error (.unknownKey key)
       | .readOnly => .error (.readOnlyKey key)
-      | .shadow =>
-        match dv with
-        | .list _ => .error (.notExtendable key)
-        | _ => copyEntries cfg ty d top rest { st with sortShadowed := st.sortShadowed || key == "sort" }
-      | .member f hinted =>
-        match coerce cfg top hinted (slotOf f.kind) dv with
+      | .member f =>
+        match coerce cfg top true (slotOf f.kind) dv with
         | .error e => .error e
         | .ok cv =>
           match storeMember st f key cv with
@@ -651,7 +628,6 @@ def sortable (S : Schema) (d : StructDef) (vs : List (String × Val)) : Bool :=
     neither reads what the other writes, and with the `str` still in place the size of the message
     could not be expressed in `Codec.sort`.) -/
 def finish (p : Prims) (cfg : Config) (autosort : Bool) (ty : String) (d : StructDef) (st : St) : Except E Val :=
-  if autosort && st.sortShadowed then .error .notCallable else
   match (if cfg.messageHack then messageHack cfg st.vs else .ok st.vs) with
   | .error e => .error e
   | .ok vs0 =>
